@@ -199,7 +199,8 @@ CHECKS = {
              "per node applied metadata (Meta.applyCmd, the C18 model) from one ordered command log, lease set, per-key write locks, in-memory counters, one FIFO queue with a consumed count per (node, wal key), "
              "per-node read cursors; PUT / GET / monitor tasks advance from one named point to the next (7 cfg(walrus_verif) hooks + await-apply + tick); scheduler actions step/apply/sync. Theorems: "
              "C22_exactly_once_per_queue + C22_delivered_prefix_of_written (EVERY schedule: the engine queue of every (node, wal key) holds exactly the payloads written to it, in write order, and what GETs were handed from it is "
-             "exactly its consumed prefix - no stored entry returned twice, none invented, write order kept within a segment; invariant carried through all 15 task states by the frame lemma stepTask_qstep); "
+             "exactly its consumed prefix - no stored entry returned twice, none invented, write order kept within a segment; invariant carried through all 15 task states by the frame lemma stepTask_qstep); C22_acked_are_stored (every schedule that spawns tasks in their initial state: every PUT answered OK was written to, and sits "
+             "in, the engine queue of some (node, wal key)); "
              "C22_counterexample (kernel evaluation): two concurrent PUTs with threshold 1 - both acknowledged, the topic read until EMPTY, one acknowledged payload never returned, segment 2 sealed with a stale "
              "count; replayed on the real code on every run. Correspondence: bucket.rs + controller/{mod,internal,types}.rs + monitor.rs + metadata.rs + rpc.rs compiled from /repo on the REAL engine under a "
              "deterministic scheduler, ~550 schedules per quick run (6000 thorough: sequential / concurrent / with monitor; 1-3 nodes; thresholds 1-4; lagging applies) compared line by line with the model incl. "
